@@ -4,9 +4,16 @@
    statements (one injected fault, the commit refused by a reader's lock in rollback-journal mode,
    one retry), one reader transaction of 3 reads and one crash, in both journal modes; the
    invariants Durable, Atomic, OneCommit, OkMeansComplete, FaultMeansErrOrComplete, NoDanglingTx,
-   Snapshot, CrashAtomic, RetryConverges hold.  Each spec mutant (a statement outside the
-   transaction, commit on error, a swallowed error, two transactions, a snapshot read without a
-   transaction) must break an invariant: the properties are not vacuous.
+   Snapshot, CrashAtomic, RetryConverges, Durable hold, and so does the absolute one, Consistent:
+   every content ever observed as committed (durable content, pre-state, state after a call that
+   returned Ok or Err, crash images, what a reader transaction saw) is Sound, i.e. satisfies the
+   cross-table invariants of a wallet database.  The model also has pre-states in which the
+   operation refuses by its own logic half way (no fault), and runs in which the uninterrupted run
+   is not given but learnt from a first run, as trace validation does it.  Each spec mutant (a
+   statement outside the transaction, commit on error, a swallowed error, two transactions, a
+   snapshot read without a transaction, a swallowed refusal) must break an invariant: the
+   properties are not vacuous; with the reference run learnt, the swallowed refusal satisfies every
+   relative invariant and breaks only Consistent (both required by the check).
 2. Fault enumeration on the real SQLite wallet, recorded as traces (code -> spec): c02_driver owns
    the rusqlite connection the wallet writes through and a second connection to the same database
    file; for every operation x pre-state x fault position (statement boundaries found by a counting
@@ -16,7 +23,21 @@
    get_wallet_summary), crash images (copies of the database files reopened fresh), the state after
    the call through both connections, then repeats the call without a fault.  Conversely the whole
    write operation is run from inside the reader's progress callback at steps of a snapshot read.
-   TLC validates every event against TxnAtomic (all invariants after every event).
+   With every dump the driver computes, by SQL in the same read transaction, the cross-table facts
+   (no `blocks` row / note-commitment-tree checkpoint / mined transaction / tx-locator entry above
+   the height the scan queue extends to) and logs them as booleans; the specification requires them
+   of every observation of a committed state (Consistent).  TLC validates every event against
+   TxnAtomic (all invariants after every event).
+
+   Operations include storing a REAL wallet-created transaction (built by propose_transfer +
+   create_proposed_transactions on a scratch copy of the pre-state database, mock Sapling provers;
+   the pre-state has never seen it): decrypt_and_store_transaction unmined / mined, and
+   store_transactions_to_be_sent of two such transactions in one call; and, on a wallet whose
+   Sapling or Orchard tree retains checkpoints only above an old note (built through the public
+   WalletCommitmentTrees / ShardStore API: scanning cannot reach that state), account creation /
+   import / rewind whose tree truncation is refused half way (RequestedRewindInvalid after the
+   scan queue was trimmed and transactions un-mined): the uninterrupted call is an Err that must
+   leave the database untouched, and whatever a call returns, what it commits must be Consistent.
 """
 import json
 import os
@@ -28,23 +49,25 @@ from . import lib
 
 AREA = "Wallet"
 INVS = ["Atomic", "OneCommit", "OkMeansComplete", "FaultMeansErrOrComplete", "NoDanglingTx", "Snapshot",
-        "CrashAtomic", "RetryConverges", "Durable"]
-SPEC_MUTANTS = ["StmtOutsideTxn", "CommitOnErr", "SwallowError", "TwoTxns", "ReaderNoTxn"]
+        "CrashAtomic", "RetryConverges", "Durable", "Consistent"]
+SPEC_MUTANTS = ["StmtOutsideTxn", "CommitOnErr", "SwallowError", "TwoTxns", "ReaderNoTxn", "SwallowRefusal"]
 SHARDS = {"quick": 6, "thorough": 8}     # driver processes (and parallel TLC trace validations)
 
 
 # ------------------------------------------------------------------------------------------------
 # the specification alone
 
-def write_mc_cfg(path, wal, mutant):
+def write_mc_cfg(path, wal, mutant, invs=None, constraint=None):
     with open(path, "w") as f:
         f.write("SPECIFICATION Spec\nCONSTANTS\n  MaxStmts = 4\n  MaxReads = 3\n  Wal = %s\n  Mutant = \"%s\"\n"
-                "INVARIANTS TypeOK %s\nCHECK_DEADLOCK FALSE\n" % ("TRUE" if wal else "FALSE", mutant, " ".join(INVS)))
+                "  Sound <- MCSound\nINVARIANTS TypeOK %s\n%sCHECK_DEADLOCK FALSE\n"
+                % ("TRUE" if wal else "FALSE", mutant, " ".join(invs or INVS),
+                   ("CONSTRAINT %s\n" % constraint) if constraint else ""))
 
 
 def model_check(ctx, d):
     r = lib.tlc(ctx, d, "TxnAtomic", "MC_TxnAtomic.cfg", workers=4, timeout=600)
-    lib.require_coverage(r, ["PStart", "PBegin", "PStmt", "PFault", "PCommit", "PErr", "PRetOk",
+    lib.require_coverage(r, ["PStart", "PBegin", "PStmt", "PRefuse", "PFault", "PCommit", "PErr", "PRetOk",
                              "PRetErr", "PRBegin", "PRRead", "PREnd", "Crash", "Recover"])
     lib.account_tlc(ctx, r)
     write_mc_cfg(os.path.join(d, "MC_rollback.cfg"), False, "none")
@@ -60,6 +83,19 @@ def model_check(ctx, d):
             raise lib.ToolError("vacuity: spec mutant %s does not break any invariant of TxnAtomic" % m)
         broken[m] = r.invariant
     ctx.extra["spec_mutants_broken_invariant"] = broken
+    # What Consistent adds: where the uninterrupted run is not given but learnt from a first run (as trace validation
+    # does it), an operation that swallows its own refusal and commits satisfies every relative invariant -- only
+    # Consistent is broken.
+    rel = [i for i in INVS if i != "Consistent"]
+    write_mc_cfg(os.path.join(d, "MC_learnt_rel.cfg"), True, "SwallowRefusal", invs=rel, constraint="LearnOnly")
+    r = lib.tlc(ctx, d, "TxnAtomic", "MC_learnt_rel.cfg", workers=1, timeout=600, expect_ok=False, coverage=False)
+    if not r.ok:
+        raise lib.ToolError("model: SwallowRefusal with a learnt reference run was expected to satisfy the relative "
+                            "invariants (it broke %s)" % r.invariant)
+    write_mc_cfg(os.path.join(d, "MC_learnt_all.cfg"), True, "SwallowRefusal", constraint="LearnOnly")
+    r = lib.tlc(ctx, d, "TxnAtomic", "MC_learnt_all.cfg", workers=1, timeout=600, expect_ok=False, coverage=False)
+    if r.ok or r.invariant != "Consistent":
+        raise lib.ToolError("vacuity: SwallowRefusal with a learnt reference run does not break Consistent (%s)" % r.invariant)
 
 
 # ------------------------------------------------------------------------------------------------
@@ -166,11 +202,20 @@ def report(ctx, d, path, verdict, what, seed):
     # reader-interleaving groups: the VM step of the snapshot read at which the write operation ran
     rb = [e for e in events[s_exec:idx] if e["a"] == "rbegin" and "at" in e]
     reader_at = rb[-1]["at"] if rb and "@" in str(grp.get("op")) else None
-    where = ("%s run with fault at VM step %s" % (ex.get("mode"), ex.get("fault"))) if reader_at is None else \
-        ("whole operation run at VM step %s of the reader's get_wallet_summary" % reader_at)
+    if reader_at is not None:
+        where = "whole operation run at VM step %s of the reader's get_wallet_summary" % reader_at
+    elif not ex.get("fault"):
+        where = "uninterrupted run (mode %s, no fault injected)" % ex.get("mode")
+    else:
+        where = "%s run with fault at VM step %s" % (ex.get("mode"), ex.get("fault"))
+    extra = ""
+    if prop == "Consistent":
+        bad = sorted(k for k, ok in (events[idx - 1].get("inv") or {}).items() if not ok)
+        extra = (" -- the committed state observed there breaks the cross-table invariant(s) %s (call returned %s)"
+                 % (", ".join(bad) or "?", next((e.get("res") for e in events[idx - 1:end] if e["a"] == "opend"), "?")))
     summary = ("state %s, operation %s, %s: after event %d (%s) of the recorded execution "
-               "the specification's %s is violated: %s" %
-               (grp.get("state"), grp.get("op"), where, idx, json.dumps(events[idx - 1])[:300], prop, v2[2][:300]))
+               "the specification's %s is violated: %s%s" %
+               (grp.get("state"), grp.get("op"), where, idx, json.dumps(events[idx - 1])[:300], prop, v2[2][:300], extra))
     lib.violation(ctx, {"property": ctx.prop, "kind": v2[0], "invariant": prop, "state": grp.get("state"),
                         "op": grp.get("op"), "mode": ex.get("mode"), "fault": ex.get("fault"), "reader_at": reader_at,
                         "seed": seed, "tier": ctx.tier, "events": sl}, summary)
@@ -266,6 +311,11 @@ def run(ctx):
     if tot["faults_with_pending_rows"] < 200 or tot["executions"] < 1000 or len(ops) < 8 or \
             tot["reader_interleavings"] < 20 or tot["crash_images"] < 100:
         raise lib.ToolError("vacuity: too few fault injections took place: %s" % tot)
+    need = {"store_decrypted_unmined", "store_decrypted_mined", "store_to_be_sent", "create_account_refused",
+            "import_ufvk_refused", "rewind_witness_refused"}
+    missing = need - {g["op"] for g in groups}
+    if missing:
+        raise lib.ToolError("vacuity: operations not executed: %s" % sorted(missing))
     ctx.extra["driver_stats"] = tot
     ctx.extra["groups"] = sorted(groups, key=lambda g: (g["state"], g["op"]))
     lib.write_evidence(ctx, "fault_enumeration", {
@@ -293,9 +343,18 @@ def run(ctx):
         "handler) nor inside a ROLLBACK (rusqlite's Transaction::drop cannot report a failed ROLLBACK; the connection "
         "would stay inside the transaction whatever the wallet does); such positions are counted as skipped_positions",
         "one writer (the API takes &mut self); the reader is a second connection to the same file",
-        "pre-states are produced by short seeded histories on the harness chain (three wallets: rollback journal without "
-        "NU6.3; WAL with NU6.3 active; rollback journal with NU6.3 and a pool migration in flight; thorough: each also in "
-        "the other journal mode)",
+        "pre-states are produced by short seeded histories on the harness chain (four wallets: without NU6.3; with NU6.3 "
+        "active; with NU6.3 and a pool migration in flight; one whose Sapling or Orchard tree lost, through the public "
+        "WalletCommitmentTrees/ShardStore API, every checkpoint at or below an old note's height -- the state the crate "
+        "documents for a pool whose post-migration rescan has only reached blocks near the tip, not reachable by scanning; "
+        "journal modes rotate with the seed; thorough: each wallet also in the other journal mode / the other pool)",
+        "the transactions stored by store_decrypted_* / store_to_be_sent are built by the wallet itself on a scratch copy "
+        "of the pre-state database with the crates' mock Sapling provers (Sapling-funded, Sapling change); the two "
+        "transactions stored in one call were built independently from the same notes",
+        "Consistent: four cross-table facts, each relative to the height the scan queue extends to (no blocks row, no "
+        "tree checkpoint of any pool, no transactions.mined_height, no tx_locator_map entry above it), computed by SQL on "
+        "the harness's own connections in the same read transaction as the dump; they hold of every committed state the "
+        "unchanged wallet produced in all runs (seeds 1..5 quick, thorough)",
         "random identifiers (account / migration uuids) are blanked in the canonical dump; all other columns are compared "
         "exactly",
     ])
@@ -386,4 +445,28 @@ def selftest(ctx):
     if v[0] != "invariant" or v[1] != q + 1 or v[2] != "Snapshot":
         raise lib.ToolError("selftest: corrupted reader observation at event %d not rejected there: %s" % (q + 1, v))
     got.append(v[2])
-    lib.log("selftest ok: corrupted digest / dropped commit / dropped rollback / corrupted reader observation rejected: %s" % got)
+    # a cross-table fact of a committed state (after a call that returned Ok; of a crash image)
+    oks = [i for i, e in enumerate(ev) if e["a"] == "opend" and e["res"] == "ok"]
+    o = oks[len(oks) // 2]
+    c = next(i for i in range(o, -1, -1) if ev[i]["a"] == "wcommit" and ev[i]["dig"] == ev[o]["dig"])
+
+    def corrupt_fact(es):
+        for i in (c, o):
+            es[i]["inv"] = dict(es[i]["inv"], blocks_le_tip=False)
+        return es
+    v = variant("fact", corrupt_fact)
+    if v[0] != "invariant" or v[1] != c + 1 or v[2] != "Consistent":
+        raise lib.ToolError("selftest: a committed state breaking a cross-table invariant (event %d) not rejected there: %s" % (c + 1, v))
+    got.append(v[2])
+    crs = [i for i, e in enumerate(ev) if e["a"] == "crash"]
+    k2 = crs[len(crs) // 2]
+
+    def corrupt_crash(es):
+        es[k2]["inv"] = dict(es[k2]["inv"], checkpoints_le_tip=False)
+        return es
+    v = variant("crashfact", corrupt_crash)
+    if v[0] != "invariant" or v[1] != k2 + 1 or v[2] not in ("Consistent", "CrashAtomic"):
+        raise lib.ToolError("selftest: a crash image breaking a cross-table invariant (event %d) not rejected there: %s" % (k2 + 1, v))
+    got.append(v[2])
+    lib.log("selftest ok: corrupted digest / dropped commit / dropped rollback / corrupted reader observation / "
+            "inconsistent committed state / inconsistent crash image rejected: %s" % got)
